@@ -255,10 +255,22 @@ Section Dir.
      (is_same_entry: equal entry_pos, i.e. the same short slot) -> nothing happens only if the entry is stored under
      exactly this spelling (has_exact_name); otherwise (another case of the long name, or the entry's own alias) the
      entry is REWRITTEN with the new long name and the SAME raw short name (the copy of e.raw_short_name()), through
-     the same write-then-delete path.  (This branch used to be an unconditional no-op: D22, fixed in 46d26a5.)
+     the same write-then-delete path - unless ANOTHER entry of the directory matches the new spelling too: AlreadyExists,
+     nothing changes ([other_match]: D27, fixed in 7e5011a).  (This branch used to be an unconditional no-op: D22, fixed
+     in 46d26a5.)
      Outside this layer (tree level, other directories): for a source DIRECTORY the walk from dst_dir up the ".."
      entries that refuses a move into itself (InvalidInput, before the existence check), and after a successful write
      the update of the moved directory's own ".." entry. *)
+  (* since 7e5011a (D27), in the "destination resolves to the source itself, in another spelling" branch, before the entry is
+     rewritten:   for r in dst_dir.iter() { let other = r?; if !other.is_same_entry(&e) && other.eq_name(dst_name) { return
+     Err(AlreadyExists) } }   - check_for_existence stops at the FIRST match; when that is the source (e.g. through its alias)
+     a LATER entry may match the new spelling too (e.g. through an expanding case mapping: its long name "\u{DF}~1" against
+     "ss~1").  Dir::iter() skips volume labels; is_same_entry compares entry_pos (the position of the short slot; here the
+     end offset, as in the test above).  Ok true: such an entry exists. *)
+  Definition other_match (ss : slots) (e : Lfn.entry_view) (dst : str) : res bool :=
+    do l <- dir_entries ss;
+    Ok (existsb (fun other => negb (Lfn.ev_end other =? Lfn.ev_end e) && matches dst other) l).
+
   Definition rename_in_dir (k : dkind) (free : nat) (ss : slots) (src dst : str) : dres unit :=
     lift (find_entry ss src None) ss (fun e =>
       if is_special e then (Err EInvalidInput, ss) else
@@ -267,7 +279,9 @@ Section Dir.
         | Exists dst_e =>
           if negb (Lfn.ev_end e =? Lfn.ev_end dst_e) then (Err EAlreadyExists, ss)
           else if has_exact_name e dst then (Ok tt, ss)
-          else rename_rewrite k free ss e dst (Lfn.ev_raw_name e)
+          else lift (other_match ss e dst) ss (fun other =>
+                 if other then (Err EAlreadyExists, ss)
+                 else rename_rewrite k free ss e dst (Lfn.ev_raw_name e))
         | Fresh a => rename_rewrite k free ss e dst a
         end)).
 
